@@ -211,6 +211,8 @@ func genInboxF(r *rng, ty string, k int, focus bool) *scenario {
 		foreignAt := -1
 		if focus { // the object of another origin first / last / after two of the activity's own
 			switch k % 4 {
+			case 0:
+				nobj = 3 // all of the activity's own origin: the effect reaches every one of them
 			case 1:
 				nobj, foreignAt = 2, 1
 			case 2:
@@ -406,7 +408,7 @@ func genInboxF(r *rng, ty string, k int, focus bool) *scenario {
 // One member of an otherwise valid request made absent / null / empty / doubled / a plain string / an embedded value
 // without id: the glue around the modelled core (which property is required, what an empty list means, who is asked first).
 var shapeProps = []string{"actor", "object", "target", "to", "cc", "bto", "bcc", "audience", "id", "type", "inReplyTo", "attributedTo", "origin"}
-var shapeEdits = []string{"absent", "empty", "double", "string", "noid"} // a JSON null for a known property is not modelled (pub model: nulls dropped on decoding)
+var shapeEdits = []string{"absent", "empty", "double", "string", "noid", "nonstring"} // a JSON null for a known property is not modelled (pub model: nulls dropped on decoding)
 
 func genShape(r *rng, reps int) []*scenario {
 	var out []*scenario
@@ -444,6 +446,9 @@ func genShape(r *rng, reps int) []*scenario {
 						if p == "type" && (useSend || e == "noid") {
 							continue // Send needs a decodable value
 						}
+						if e == "nonstring" && p != "type" {
+							continue
+						}
 						if !has && !(p == "object" || p == "target" || p == "actor") {
 							continue
 						}
@@ -467,6 +472,8 @@ func genShape(r *rng, reps int) []*scenario {
 							body[p] = []string{"not an iri", "//remote.example/activities/relative", "/activities/1", "?x=1", "#frag", "remote.example/a"}[len(out)%6]
 						case "noid":
 							body[p] = jmap{"type": "Note", "content": "no id"}
+						case "nonstring": // a list of type names none of which is a string
+							body[p] = []interface{}{float64(7), jmap{"name": v}, float64(0)}
 						}
 						sc := *base
 						if useSend {
@@ -720,6 +727,66 @@ func genOutbox(r *rng, ty string, k int) *scenario {
 	return sc
 }
 
+// ---- overrides: an application callback for one type leaves every other type's default alone --------------------------
+// For every ordered pair (overridden type O, posted type T != O) on both sides: T valid, T lacking its object, T lacking
+// its target (Add / Remove) - with O supplied as 'other' and, separately, as a wrapped callback.
+func genOverrides(r *rng) []*scenario {
+	var out []*scenario
+	k := 0
+	socT := []string{"Create", "Update", "Delete", "Follow", "Add", "Remove", "Like", "Undo", "Block"}
+	fedT := []string{"Create", "Update", "Delete", "Follow", "Accept", "Reject", "Add", "Remove", "Like", "Announce", "Undo", "Block"}
+	for _, side := range []string{"outbox", "inbox"} {
+		types := socT
+		if side == "inbox" {
+			types = fedT
+		}
+		for _, o := range types {
+			for _, ty := range types {
+				if o == ty {
+					continue
+				}
+				for variant := 0; variant < 4; variant++ {
+					if variant == 2 && !(ty == "Add" || ty == "Remove") {
+						continue
+					}
+					k++
+					var sc *scenario
+					if side == "outbox" {
+						sc = genOutbox(r, ty, k)
+						if sc.Entry == "send" {
+							sc.Entry, sc.Body, sc.Send = "postoutbox", sc.Send, nil
+						}
+						sc.Cfg.Social, sc.Cfg.Federating = true, true
+						sc.Cfg.SocOther, sc.Cfg.SocWrapped = []string{o}, nil
+						if variant == 3 {
+							sc.Cfg.SocOther, sc.Cfg.SocWrapped = nil, []string{o}
+						}
+					} else {
+						sc = genInboxF(r, ty, k, true)
+						sc.Cfg.Blocked = nil
+						sc.Cfg.FedOther, sc.Cfg.FedWrapped = []string{o}, nil
+						if variant == 3 {
+							sc.Cfg.FedOther, sc.Cfg.FedWrapped = nil, []string{o}
+						}
+					}
+					switch variant {
+					case 1:
+						delete(sc.Body, "object")
+					case 2:
+						delete(sc.Body, "target")
+					}
+					sc.Family = "overrides:" + side + ":" + ty
+					sc.Note = fmt.Sprintf("application callback for %s (%s), posted %s%s", o, map[bool]string{true: "wrapped", false: "other"}[variant == 3],
+						ty, []string{"", " without object", " without target", ""}[variant])
+					sc.Tags = map[string]bool{}
+					out = append(out, sc)
+				}
+			}
+		}
+	}
+	return out
+}
+
 // ---- the same actor value serving two requests: what it learnt from the first must not decide the second ---------------
 // (C07: every request is authenticated / authorized anew; C10: each gets its own outcome)
 func genAgain(r *rng, k int) *scenario {
@@ -896,6 +963,11 @@ func genGet(r *rng, kind string, k int) *scenario {
 	case "handler":
 		sc.Entry = "handler"
 		sc.Path = fmt.Sprintf("/notes/%d", 1+r.intn(4)) // note 4 does not exist
+		if k%5 == 3 { // nothing stored under the requested id: the Database answers (nil, nil)
+			sc.Path = pick(r, []string{"/notes/4", "/nothing/here", "/users/alice/nothing"})
+			w.Clock = int64(r.intn(2000000000)) - 100000000
+			return sc
+		}
 		if r.chance(1, 4) {
 			id := local + "/tomb/1"
 			w.Store[id] = jmap{"@context": asCtx, "type": "Tombstone", "id": id, "formerType": "Note", "deleted": "2020-01-01T00:00:00Z"}
